@@ -169,7 +169,16 @@ def run(ctx: Ctx):
             # imports whose importee is not a module (a name below an existing module): never an edge, limit or not
             for _ in range(rng.choice([0, 0, 1, 2])):
                 imps = imps + [(rng.choice(nodes), rng.choice(nodes) + "." + rng.choice(["zz", "zz.deep"]))]
-            cases.append((nodes, imps, rng.randint(0, max(n.count(".") for n in nodes))))
+            k = rng.randint(0, max(n.count(".") for n in nodes))
+            if rng.random() < 0.2:
+                # the module list names files only (ancestor packages are implied by the dotted names, as when an evaluable is
+                # built by hand); imports may target such an implied package
+                inner = [n for n in nodes if any(m.startswith(n + ".") for m in nodes)]
+                drop = set(rng.sample(inner, rng.randint(1, len(inner)))) if inner else set()
+                given = [n for n in nodes if n not in drop]
+                if given:
+                    nodes = given
+            cases.append((nodes, imps, k))
         judge_graphs(ctx, s, cases)
         s.finish()
     s = Stream(ctx, "scans: random project trees x module_path x level_limit")
